@@ -359,6 +359,7 @@ static void mask_random(unsigned long count)
 /* ---- C13: parsing ---------------------------------------------------------- */
 
 static unsigned long n_libc_both;
+static unsigned long n_trailing_libc;
 static int also_ntop;
 
 /* Run irc_pton in all four modes on an exact-size copy; compare with libc where both accept a plain address. */
@@ -386,6 +387,31 @@ static void check_string(const char *s, size_t len)
         free(pb);
         free(addr);
         free(in);
+    }
+    /* with trailing text allowed and no prefix length asked for, the characters the parser claims are a text of their own: where
+     * that text is a plain address for the C library too, both must have read the same address */
+    if (res[2] > 0 && res[2] <= len) {
+        char *pre = exact(s, res[2]);    /* NUL-terminated copy of the claimed characters */
+        irc_inaddr libc;
+        int ok = 0;
+        if (!isspace((unsigned char)pre[0]) && !strchr(pre, '/') && !strchr(pre, '*')) {
+            if (strchr(pre, ':'))
+                ok = inet_pton(AF_INET6, pre, &libc) == 1;
+            else if (strchr(pre, '.')) {
+                struct in_addr a4;
+                ok = inet_pton(AF_INET, pre, &a4) == 1;
+                memset(&libc, 0, sizeof(libc));
+                libc.in6[5] = htons(65535);
+                memcpy(&libc.in6[6], &a4, 4);
+            }
+        }
+        if (ok) {
+            n_trailing_libc++;
+            if (memcmp(&libc, &out[2], sizeof(libc)))
+                viol("pton-trailing-libc-disagree", "'%s' with trailing text allowed: irc_pton claims the first %u characters and reads %s, inet_pton reads those characters as %s",
+                     s, res[2], hex128(&out[2]), hex128(&libc));
+        }
+        free(pre);
     }
     if (res[0]) n_accept++; else n_reject++;
     /* C12: an accepted plain address must print to a text that is a fixed point of parse+print */
@@ -721,7 +747,7 @@ int main(int argc, char *argv[])
         }
     } else
         return 3;
-    printf("STATS evaluations=%lu accepted=%lu rejected=%lu libc_both=%lu libc_agree=%lu mask_true=%lu mask_false=%lu v4_text=%lu v6_text=%lu compressed=%lu leading0=%lu violations=%lu\n",
-           n_eval, n_accept, n_reject, n_libc_both, n_agree, n_mask_true, n_mask_false, n_v4_text, n_v6_text, n_compressed, n_leading0, n_viol);
+    printf("STATS evaluations=%lu accepted=%lu rejected=%lu libc_both=%lu libc_agree=%lu mask_true=%lu mask_false=%lu v4_text=%lu v6_text=%lu compressed=%lu leading0=%lu trailing_libc=%lu violations=%lu\n",
+           n_eval, n_accept, n_reject, n_libc_both, n_agree, n_mask_true, n_mask_false, n_v4_text, n_v6_text, n_compressed, n_leading0, n_trailing_libc, n_viol);
     return n_viol ? 1 : 0;
 }
